@@ -29,19 +29,24 @@ Abstract(e) ==
 
 KindCode(t) == IF t[1] = "nl" THEN 0 ELSE IF t[1] = "sp" THEN 1 ELSE 2
 ShapeCodes(s) == [i \in 1 .. Len(s) |-> KindCode(s[i])]
+\* the driver reports a maximal run of characters that are neither blank nor newline as one word (a name like "#jets" is one word)
+Collapse(s) == LET F[i \in 0 .. Len(s)] == IF i = 0 THEN <<>> ELSE IF i > 1 /\ s[i] = 2 /\ s[i - 1] = 2 THEN F[i - 1] ELSE Append(F[i - 1], s[i])
+               IN F[Len(s)]
 
 Case ==
     /\ l <= TraceLen /\ Ev.e = "Case"
     /\ LET c == IF Ev.genTail = -1 THEN Abstract(Ev) ELSE [Abstract(Ev) EXCEPT !.gens = <<>>]
            s == WChk(c)
-       IN /\ (CheckLayout) => Ev.shape = ShapeCodes(s)   \* layout: header line, name lines, counts, field order, separators
+       IN /\ (CheckLayout) => Collapse(Ev.shape) = Collapse(ShapeCodes(s))   \* layout: header line, name lines, counts, field order, separators
           /\ (CheckLayout) => Ev.genTail \in {-1, 1}   \* long generator states: one per line, single blanks, nres + 1 of them
           /\ (Ev.gw <= 30) => RoundTrip(c, Ev.gw, "exact")   \* the format itself is unambiguous for this structure
     /\ Ev.good = 1                             \* the stream is still good after reading
     /\ Ev.equal = 1                            \* every field equal, bit for bit
     /\ Ev.gensEqual = 1                        \* every stored generator equal
     /\ l' = l + 1
-Next == Case
+\* distribution parameters on their own (many ranges, bin counts that are not powers of two): all read back equal, bit for bit
+Params == /\ l <= TraceLen /\ Ev.e = "Params" /\ Ev.n > 0 /\ Ev.bad = 0 /\ Ev.good = 1 /\ l' = l + 1
+Next == Case \/ Params
 Spec == Init /\ [][Next]_vars
 TraceAccepted == TraceAcceptedBy(TraceLen)
 =============================================================================
